@@ -8,8 +8,9 @@ CONSTANTS AnyOrder, MinItems, NC, L, MaxItems, MaxPerChrom, Vals, IPS, ZoomLists
 VARIABLES input, cur, pos, nIn, done, ips, zl
 vars == <<input, cur, pos, nIn, done, ips, zl>>
 ZL == CASE ZoomLists = "a" -> {<<>>, <<2>>, <<3>>, <<2, 4>>}
-        [] ZoomLists = "b" -> {<<2>>, <<3>>, <<2, 5>>, <<4>>}
+        [] ZoomLists = "b" -> {<<2>>, <<3>>, <<2, 5>>, <<5, 2>>}     \* a manual list need not be ascending: the file lists its levels ascending
         [] ZoomLists = "c" -> {<<>>, <<2>>}
+AscZ(z) == IF Len(z) = 2 /\ z[1] > z[2] THEN <<z[2], z[1]>> ELSE z
 Sizes == [c \in 1..NC |-> L]
 
 Init == /\ input = <<>> /\ cur = 0 /\ pos = 0 /\ nIn = 0 /\ done = FALSE
@@ -28,6 +29,6 @@ Next == \/ \E s \in pos..L : \E e \in s..L : \E v \in Vals : AddVal(s, e, v)
 
 \* mechanism => abstract, at every complete input
 MechRoundTrip == done => Flatten(Sections(input, ips)) = input
-MechZoom == done => ZoomsOKW(input, Sizes, ModelZooms(input, zl))
-Emit == done => PrintT(<<"REPLAY", ToJson([items |-> input, ips |-> ips, zooms |-> zl, NC |-> NC, L |-> L, sort |-> IF AnyOrder THEN "start" ELSE "all", mz |-> ModelZooms(input, zl)])>>)
+MechZoom == done => ZoomsOKW(input, Sizes, ModelZooms(input, AscZ(zl)))
+Emit == done => PrintT(<<"REPLAY", ToJson([items |-> input, ips |-> ips, zooms |-> zl, NC |-> NC, L |-> L, sort |-> IF AnyOrder THEN "start" ELSE "all", mz |-> ModelZooms(input, AscZ(zl))])>>)
 =============================================================================
